@@ -19,9 +19,11 @@ Declined: idempotence of normalize_path / "canonical path is a fixed point" as v
 behaviour of werkzeug's redirect().
 """
 import ast
+import re
 
 from ..core import AnalysisError, norm, short
-from .dispatch import DispatchView
+from .dispatch import DispatchView, strip_not
+from ..astutil import argn
 from .common import (cfg_of, fkey, conds, has_cond, cond_texts, stmts_of, walk_body, call_tail, call_name, returns_of,
                      stmt_of, kwarg, names_loaded)
 
@@ -76,18 +78,45 @@ def run(rep):
         raise AnalysisError('Application.dispatch: expected exactly one redirect(...) call, found %d' % len(dv.redirect_calls))
     rc = dv.redirect_calls[0]
     rst = stmt_of(app, rc)
-    cs = conds(f, rst)
-    npv = [norm(s.targets[0]) for s in stmts_of(f.node) if isinstance(s, ast.Assign) and isinstance(s.value, ast.Call)
-           and call_name(s.value) == 'normalize_path']
-    if len(npv) != 1:
-        raise AnalysisError('dispatch: normalize_path assignment not found')
-    npv = npv[0]
+    cs = dv.conds(rst)
+    npc = [c for c in walk_body(f.node) if isinstance(c, ast.Call) and call_name(c) == 'normalize_path']
+    if len(npc) != 1:
+        raise AnalysisError('dispatch: expected exactly one normalize_path(...) call, found %d' % len(npc))
+    npc = npc[0]
+    nps = stmt_of(app, npc)
+    if not (isinstance(nps, ast.Assign) and nps.value is npc and len(nps.targets) == 1 and isinstance(nps.targets[0], ast.Name)):
+        raise AnalysisError('dispatch: the result of normalize_path(...) is not bound to a local')
+    npv = nps.targets[0].id
+    np_path = argn(npc, 'path', 0)
+
+    def is_noncanonical(t):
+        """polarity under which comparison ``t`` says: normalize_path(request path, ..) differs from the request path"""
+        if not (isinstance(t, ast.Compare) and len(t.ops) == 1 and isinstance(t.ops[0], (ast.Eq, ast.NotEq))):
+            return None
+        a_, b_ = t.left, t.comparators[0]
+        for x, y in ((a_, b_), (b_, a_)):
+            if isinstance(x, ast.Call) and norm(x) == norm(npc) and np_path is not None and norm(y) == norm(np_path):
+                return isinstance(t.ops[0], ast.NotEq)
+        return None
+
+    def is_mode(t, const):
+        """polarity under which comparison ``t`` says: the route's slash mode is ``const``"""
+        if not (isinstance(t, ast.Compare) and len(t.ops) == 1 and isinstance(t.ops[0], (ast.Eq, ast.NotEq))):
+            return None
+        a_, b_ = t.left, t.comparators[0]
+        for x, y in ((a_, b_), (b_, a_)):
+            if norm(x) == '%s.slash_mode' % rv and norm(y) == const:
+                return isinstance(t.ops[0], ast.Eq)
+        return None
+
+    def holds(cs_, pred):
+        return any(pred(t) is not None and pred(t) is p for t, p in cs_)
     checks = [
         ('pattern matched', dv.matched_conds(cs)),
         ('method admitted', dv.method_ok_conds(cs)),
         ('route is a branch', has_cond(cs, lambda t: norm(t) == '%s.is_branch' % rv, True)),
-        ('path is not canonical', has_cond(cs, lambda t: norm(t) in ('%s != url_path' % npv, 'url_path != %s' % npv), True)),
-        ('redirect mode', has_cond(cs, lambda t: norm(t) in ('%s.slash_mode == S_REDIRECT' % rv, 'S_REDIRECT == %s.slash_mode' % rv), True)),
+        ('path is not canonical', holds(cs, is_noncanonical)),
+        ('redirect mode', holds(cs, lambda t: is_mode(t, 'S_REDIRECT'))),
     ]
     for label, ok in checks:
         rep.check('R07.a', fkey(f, 'redirect requires: ' + label), ok,
@@ -96,19 +125,22 @@ def run(rep):
     ok = isinstance(rst, ast.Return) and rst.value is rc
     rep.check('R07.a', fkey(f, 'redirect returned'), ok, 'the redirect response is returned immediately' if ok else
               'the redirect response is not returned directly', app, rst)
-    nps = [s for s in stmts_of(f.node) if isinstance(s, ast.Assign) and norm(s.targets[0]) == npv][0]
-    ok = [norm(a) for a in nps.value.args] == ['url_path', '%s.is_branch' % rv]
+    np_branch = argn(npc, 'is_branch', 1)
+    ok = np_path is not None and dv.is_request_attr(np_path, 'path') and norm(np_path) == norm(dv.match_call.args[0]) and np_branch is not None and \
+        (norm(np_branch) == '%s.is_branch' % rv or
+         (isinstance(np_branch, ast.Constant) and np_branch.value is True and has_cond(dv.conds(nps), lambda t: norm(t) == '%s.is_branch' % rv, True)))
     rep.check('R07.a', fkey(f, 'canonical form'), ok, 'canonical path = normalize_path(request path, route.is_branch)' if ok else
               'normalize_path is not applied to (url_path, route.is_branch)', app, nps)
     # strict
-    def _is_strict(t_, p_):
-        s = norm(t_)
-        if s in ('%s.slash_mode == S_STRICT' % rv, 'S_STRICT == %s.slash_mode' % rv):
-            return p_
-        if s in ('%s.slash_mode != S_STRICT' % rv, 'S_STRICT != %s.slash_mode' % rv):
-            return not p_
-        return None
-    strict_t = [nid for nid, t_, p_ in cfg.branches() if _is_strict(t_, p_) is True]
+    bnodes = [n.id for n in cfg.nodes if n.kind == 'branch' and cfg.reachable(n.id)]
+
+    def says(cs_, pred, want=True):
+        return any(pred(t) is not None and (pred(t) is p) is want for t, p in cs_)
+    is_strict = lambda t: is_mode(t, 'S_STRICT')
+    is_branch_t = lambda t: True if norm(t) == '%s.is_branch' % rv else None
+    # entry points of the region "the mode is strict and the path is not canonical"
+    region = [nid for nid in bnodes if says(dv.branch_conds(nid, full=True), is_strict) and says(dv.branch_conds(nid, full=True), is_noncanonical)]
+    strict_t = [n for n in region if not any(n in cfg.reach([m], avoid=dv.head, include_src=False) for m in region if m != n)]
     addx = dv.calls_stmt('add_exception', dv.ds_var)
     addx_nf = []
     for s in addx:
@@ -123,8 +155,11 @@ def run(rep):
     rep.check('R07.a', fkey(f, 'strict mode'), ok,
               'strict mode: a non-canonical path records a not-found error and the route is not executed' if ok else
               'strict mode does not reliably skip the route with a recorded not-found error', app, addx_nf[0] if addx_nf else dv.loop)
-    strict_f = [nid for nid, t_, p_ in cfg.branches() if _is_strict(t_, p_) is False]
-    ok = bool(strict_f) and bool(set(exec_nodes) & cfg.reach(strict_f, avoid=dv.head, normal_only=True))
+    # rewrite: some way leads from the loop header to execute without redirecting, without recording the strict-mode error and
+    # without ever taking a branch that says "the path is canonical" or "the route is a leaf"
+    blocked = [nid for nid in bnodes if says(dv.branch_conds(nid), is_noncanonical, False) or says(dv.branch_conds(nid), is_branch_t, False)]
+    avoid = set(dv.head) | set(blocked) | set(cfg.nodes_of(rst)) | set(cfg.nodes_of_all(addx_nf))
+    ok = bool(blocked) and bool(set(exec_nodes) & cfg.reach(dv.iter_nodes, avoid=avoid, normal_only=True))
     rep.check('R07.a', fkey(f, 'rewrite mode'), ok, 'in neither mode (rewrite) the route is executed directly' if ok else
               'rewrite mode does not fall through to execute', app, dv.exec_st)
     # canonical paths never redirect: the != test is the only way in (already dominated) ; leaf routes never redirect (is_branch)
@@ -133,13 +168,45 @@ def run(rep):
     # ---- R07.b -----------------------------------------------------------
     arg = rc.args[0]
 
+    _PCT, _BRACE = re.compile(r'%(?:s|r|d|%)'), re.compile(r'\{\}|\{\{|\}\}')
+
+    def _interleave(fmt, directive, args, depth):
+        """template text and arguments of ``fmt % args`` / ``fmt.format(*args)`` in the order they appear in the result"""
+        fallback = [fmt]
+        for x in args:
+            fallback.extend(pieces(x, depth + 1))
+        if not (isinstance(fmt, ast.Constant) and isinstance(fmt.value, str)):
+            return fallback
+        rest = directive.sub('', fmt.value)
+        if any(ch in rest for ch in ('%' if directive is _PCT else '{}')):
+            return fallback      # a directive this model does not split (width, mapping key, conversion, ...)
+        out, pos, i = [], 0, 0
+        for m in directive.finditer(fmt.value):
+            lit = fmt.value[pos:m.start()]
+            if m.group(0) in ('%%', '{{', '}}'):
+                lit += m.group(0)[0]
+            if lit:
+                out.append(ast.copy_location(ast.Constant(value=lit), fmt))
+            pos = m.end()
+            if m.group(0) in ('%%', '{{', '}}'):
+                continue
+            if i >= len(args):
+                return fallback
+            out.extend(pieces(args[i], depth + 1))
+            i += 1
+        if fmt.value[pos:]:
+            out.append(ast.copy_location(ast.Constant(value=fmt.value[pos:]), fmt))
+        if i != len(args):
+            return fallback
+        return out
+
     def pieces(e, depth=0):
         """Flatten a string-building expression into its concatenated pieces."""
         if depth > 8:
             return [e]
         if isinstance(e, ast.Name):
             srcs = [s.value for s in stmts_of(f.node) if isinstance(s, ast.Assign) and norm(s.targets[0]) == e.id]
-            if len(srcs) == 1 and e.id not in ('url_path', npv):
+            if len(srcs) == 1 and e.id not in taint_roots:
                 return pieces(srcs[0], depth + 1)
             return [e]
         if isinstance(e, ast.Call) and isinstance(e.func, ast.Attribute) and e.func.attr == 'join' and len(e.args) == 1:
@@ -154,27 +221,46 @@ def run(rep):
             return pieces(e.left, depth + 1) + pieces(e.right, depth + 1)
         if isinstance(e, ast.BinOp) and isinstance(e.op, ast.Mod):
             r = e.right.elts if isinstance(e.right, ast.Tuple) else [e.right]
-            out = [e.left]
-            for x in r:
-                out.extend(pieces(x, depth + 1))
-            return out
+            return _interleave(e.left, _PCT, r, depth)
         if isinstance(e, ast.JoinedStr):
             out = []
             for v in e.values:
                 out.extend(pieces(v.value if isinstance(v, ast.FormattedValue) else v, depth + 1))
             return out
         if isinstance(e, ast.Call) and isinstance(e.func, ast.Attribute) and e.func.attr == 'format':
-            out = [e.func.value]
-            for x in list(e.args) + [k.value for k in e.keywords]:
-                out.extend(pieces(x, depth + 1))
-            return out
+            if e.keywords or any(isinstance(x, ast.Starred) for x in e.args):
+                out = [e.func.value]
+                for x in list(e.args) + [k.value for k in e.keywords]:
+                    out.extend(pieces(x, depth + 1))
+                return out
+            return _interleave(e.func.value, _BRACE, list(e.args), depth)
         return [e]
+    # locals carrying (decoded) request-path text: bound to request.path or to the normalised path, or computed from such a
+    # local by anything but a URL-quoting call
+    req_path = '%s.path' % dv.request
+    taint_roots, tainted_names = {npv}, {npv}
+    from ..astutil import assigned_value
+    all_locals = set(n.id for n in walk_body(f.node) if isinstance(n, ast.Name) and isinstance(n.ctx, ast.Store))
+    for name in all_locals:
+        for st_, val_, idx_ in assigned_value(f.node, name):
+            v_ = val_.elts[idx_] if isinstance(idx_, int) and isinstance(val_, (ast.Tuple, ast.List)) and len(val_.elts) > idx_ else val_
+            if isinstance(v_, ast.expr) and norm(v_) == req_path:
+                taint_roots.add(name)
+                tainted_names.add(name)
+    grew = True
+    while grew:
+        grew = False
+        for s_ in stmts_of(f.node):
+            if isinstance(s_, ast.Assign) and len(s_.targets) == 1 and isinstance(s_.targets[0], ast.Name) and s_.targets[0].id not in tainted_names \
+                    and not (isinstance(s_.value, ast.Call) and call_tail(s_.value) in QUOTERS) \
+                    and (req_path in norm(s_.value) or names_loaded(s_.value) & tainted_names):
+                tainted_names.add(s_.targets[0].id)
+                grew = True
     ps = pieces(arg)
-    tainted_names = {'url_path', npv}
 
     def is_path_tainted(e):
         names = names_loaded(e)
-        return bool(names & tainted_names) or 'request.path' in norm(e)
+        return bool(names & tainted_names) or req_path in norm(e)
     path_pieces = [p for p in ps if is_path_tainted(p)]
     # names derived from request.query_string (fixpoint over the assignments of dispatch)
     qvars = set()
